@@ -29,9 +29,15 @@ class Chooser:
         self.draw = draw
         self.used = {}
         self.enabled = enabled  # None = everything, else a set of labels
+        self.suppress = set()   # labels temporarily forced to the canonical decision
+        self.no_mixed_chain = False   # known finding: tag chains must be all-definite or all-indefinite
+        self.suppressed = 0
 
     def pick(self, label, n):
         if n <= 1 or (self.enabled is not None and label not in self.enabled):
+            return 0
+        if label in self.suppress:
+            self.suppressed += 1
             return 0
         r = self.draw(n)
         if r:
@@ -148,9 +154,16 @@ def wrap(chain, constructed, content, ch):
     """Apply a tag chain (outermost first) around content whose innermost TLV has the P/C bit given."""
     if not chain:
         return content
-    out = tlv(chain[-1], constructed, content, ch)
-    for tag in reversed(chain[:-1]):
-        out = tlv(tag, True, out, ch)
+    uniform = len(chain) >= 2 and getattr(ch, "no_mixed_chain", False)
+    if uniform:
+        ch.suppress.add("indef")
+    try:
+        out = tlv(chain[-1], constructed, content, ch)
+        for tag in reversed(chain[:-1]):
+            out = tlv(tag, True, out, ch)
+    finally:
+        if uniform:
+            ch.suppress.discard("indef")
     return out
 
 
